@@ -75,7 +75,8 @@ func liveSubs(w *World) map[string]map[uintptr]bool {
 	out := map[string]map[uintptr]bool{}
 	for _, c := range w.ConnSnapshot() {
 		for _, s := range c.Subs {
-			if s.State == 0 || s.State == 6 {
+			if s.State == 0 || s.State == 6 || s.Failed {
+				// (a subscription whose resource failed to load holds nothing in the cache)
 				continue
 			}
 			if out[s.RID] == nil {
